@@ -193,6 +193,8 @@ def gen_all(ctx):
                                   max_ch=rng.choice([2, 3, 3, 4]) if q else rng.choice([3, 4, 5, 6])))
     for _ in range(ctx.scale(16, 120)):
         scs.append(S.gen_welch(rng))
+    for i in range(ctx.scale(6, 24)):
+        scs.append(S.gen_welch(rng, window=["none", "array", "callable"][i % 3], M=[2, 3, 2, 4][i % 4]))
     # the BW keyword with NFFT in {None, N, > N} (the diagonal is compared with multi_taper_psd called with
     # identical keywords); adaptive=True with 1-2 usable tapers
     for _ in range(ctx.scale(5, 30)):
